@@ -105,6 +105,10 @@ class Sim:
         self.n_fault_clock_jump = 0
         self.n_stall = 0
         self.atomic = 0                 # >0: harness code, no yield points
+        self.stall_rng = None           # fault: a pre-empted thread is stalled
+        self.stall_prob = 0.0
+        self.stall_choices = (0.0005, 0.5, 1.5)
+        self.replay_stalls = None       # step -> dt in replay mode
 
     # -- registration -------------------------------------------------------
     def attach_driver(self):
@@ -174,7 +178,19 @@ class Sim:
             return
         self.n_switch += 1
         self.sites.append((tag, line))
-        self.decisions.append((self.step, target.id))
+        stall = None
+        if self.replay_stalls is not None:
+            stall = self.replay_stalls.get(self.step)
+        elif self.stall_prob and self.stall_rng.random() < self.stall_prob:
+            stall = self.stall_choices[self.stall_rng.randrange(len(self.stall_choices))]
+        if stall:
+            # the pre-empted thread is descheduled for `stall` virtual seconds
+            lt.state = SLEEPING
+            lt.wake_at = self.clock + stall
+            self.n_stall += 1
+            self.decisions.append((self.step, target.id, stall))
+        else:
+            self.decisions.append((self.step, target.id))
         self.log.append(("sw", self.step, lt.id, target.id, tag, line))
         self._handoff(lt, target)
 
@@ -750,8 +766,11 @@ class SReplay:
 
     def __init__(self, decisions):
         self.map = {}
-        for s, t in decisions:
-            self.map[s] = t
+        self.stalls = {}
+        for d in decisions:
+            self.map[d[0]] = d[1]
+            if len(d) > 2 and d[2]:
+                self.stalls[d[0]] = d[2]
         self.misses = 0
 
     def at_yield(self, sim, lt, tag, line, due):
